@@ -3942,8 +3942,11 @@ class FuncSub(ValueFunc):
 
         if a.isDate():
             if b.isDate():
-                diff = to_oa_date(a.value) - to_oa_date(b.value)
-                return ValueInt(diff)
+                # whole days between the two dates, computed on the dates
+                # themselves: the difference of two float day numbers is a
+                # float (3.0) and carries rounding noise (2.9999999999)
+                diff = (a.value - b.value) / datetime.timedelta(days=1)
+                return ValueInt(math.trunc(diff))
             return ValueDate(
                 to_date(to_oa_date(a.value) - args.getAsDecimal("b").value)
             )
